@@ -82,3 +82,8 @@ Proof. reflexivity. Qed.
 (* nothing that can raise stands between the guarded parse of the message and the dispatch *)
 Theorem C09_parse_then_dispatch : gen_after_parse = "match_follows_try".
 Proof. reflexivity. Qed.
+
+(* the protocol knows no time-outs: the only time-dependent calls of coordinator.py are the one-second sleeps of its two idle
+   heart-beat loops (the model has no clock; the harness' timer monitor covers the same statement at run time) *)
+Theorem C01_no_timeouts : gen_time_dependence = "two_heartbeat_sleeps".
+Proof. reflexivity. Qed.
